@@ -95,6 +95,10 @@ var forms = map[string]string{
 	"tlit": "std.integer2time(1000000000)", "tvar": "$x",
 	"band": "($x && $y)", "bor": "($x || $y)", "bne": "($x != $y)", "bnmatch": `($x !~ "^q")`, "brge": "($x >= $y)",
 	"bfle": "($x <= $y)", "btgt": "($x > $y)", "bteq": `($x + 1h + "" == "x")`,
+	"klit1": "b1", "klit2": "b2", "kdir": "d1", "kvar": "$x", "kreq": "req.backend", "bkeq": "($x == b1)", "bmatchx": "($x ~ $y)",
+	"xlitA": `"^foo"`, "xlitB": `"^zzz"`, "xvar": "$x", "alitA": `"192.0.2.9"`, "alitB": `"10.1.1.1"`, "avar": "$x",
+	"llit1": "acl1", "llit2": "acl2", "lvar": "$x", "slitB": `"y"`, "blitB": "false", "flitB": "2.5",
+	"tlitB": "std.integer2time(5)", "rlitB": "5s", "ilitB": "9",
 	"blit": "true", "bvar": "$x", "bnot": "(!$x)", "blt": "($x < $y)", "bneglt": "(-$x < 0)", "bmatch": `($x ~ "^(.)(.*)")`,
 	"beq": "($x == $y)", "bfgt": "($x > 1.0)", "bfneg": "(-$x < 0.0)", "brneg": "(-$x < 0s)",
 }
@@ -122,7 +126,8 @@ type poolName struct {
 
 func buildPool() []poolName {
 	var p []poolName
-	for _, n := range []string{"var.i", "var.j", "var.f", "var.r", "var.s", "var.t", "var.b", "var.tm", "var.n", "var.p", "var.q",
+	for _, n := range []string{"var.i", "var.j", "var.f", "var.r", "var.s", "var.t", "var.b", "var.tm", "var.n", "var.be", "var.re", "var.ip",
+		"var.x", "var.k", "var.o", "var.g", "var.h", "var.d", "var.a", "var.l", "var.p", "var.q", "req.backend", "b1", "b2", "d1",
 		"re.group.0", "re.group.1", "re.group.2"} {
 		p = append(p, poolName{n, ""})
 	}
@@ -203,6 +208,7 @@ func (b *builder) block(sub string, parent int, br string, indent string) {
 
 const mainPrelude = `declare local var.i INTEGER; declare local var.j INTEGER; declare local var.f FLOAT; declare local var.r RTIME;
 declare local var.s STRING; declare local var.t STRING; declare local var.b BOOL; declare local var.tm TIME; declare local var.n STRING;
+declare local var.be BACKEND; declare local var.re REGEX; declare local var.ip IP; set var.be = b1; set var.ip = "192.0.2.7";
 set var.tm = std.integer2time(1000000000);
 set var.i = 3; set var.j = 4; set var.f = 1.5; set var.r = 2s; set var.s = "sv"; set var.t = "tv"; set var.b = true;`
 
@@ -214,7 +220,11 @@ func buildVCL(p *fProg) (string, map[int]lineInfo) {
 		k := blockKey(s.Sub, s.Parent, s.Br)
 		b.kids[k] = append(b.kids[k], s)
 	}
-	b.emit(`backend example { .host = "example.com"; }`)
+	b.emit(`backend b1 { .host = "example.com"; }`)
+	b.emit(`backend b2 { .host = "example.org"; }`)
+	b.emit(`director d1 random { .quorum = 50%; { .backend = b1; .weight = 1; } { .backend = b2; .weight = 1; } }`)
+	b.emit(`acl acl1 { "192.0.2.0"/24; }`)
+	b.emit(`acl acl2 { "10.0.0.0"/8; }`)
 	b.emit(`sub vcl_recv { return (lookup); }`)
 	b.emit(`sub f2(STRING var.p) STRING {`)
 	b.emit(`  declare local var.i INTEGER; declare local var.s STRING; set var.i = 7; set var.s = "c2";`)
@@ -224,6 +234,14 @@ func buildVCL(p *fProg) (string, map[int]lineInfo) {
 	b.emit(`sub f1(STRING var.p, INTEGER var.q) {`)
 	b.emit(`  declare local var.i INTEGER; declare local var.s STRING; set var.i = 8; set var.s = "c1";`)
 	b.block("f1", 0, "", "  ")
+	b.emit(`}`)
+	// p1 / p2: one parameter of every parameter type; no declaration of their own
+	const psig = `(STRING var.p, REGEX var.x, BACKEND var.k, BOOL var.o, FLOAT var.g, TIME var.h, RTIME var.d, INTEGER var.q, IP var.a, ACL var.l)`
+	b.emit(`sub p2` + psig + ` {`)
+	b.block("p2", 0, "", "  ")
+	b.emit(`}`)
+	b.emit(`sub p1` + psig + ` {`)
+	b.block("p1", 0, "", "  ")
 	b.emit(`}`)
 	// g0 / g1: no parameter, every declaration nested in a block, the same names (var.f with another type)
 	b.emit(`sub g1 {`)
